@@ -380,6 +380,9 @@ class C08(Prop):
             for q in ['snapf s1 f', 'copy g f ?', 'complexes f p', '! complexes-partial f 1', '! complexes-partial f 2',
                       'json j f', 'q f euler', 'q f counts', 'q f betti -', 'q f Z -', '! flag fl f', '! q f cmp le f']:
                 lines += ['check save-all', q, 'check unchanged-all']
+            # two filtrations (g: a copy that then gets an index of its own) iterated in step
+            lines += ['! setindex g q%d' % rnd.choice([1, 3, 12, -8]), '! add g [ ] sGONLY -', 'check save-all', '! zipiter f g', 'check unchanged-all',
+                      'q f indices 0', 'q f getindex']
             if i % 2:
                 # an iteration taken one step at a time, the caller moving the index in between
                 from harness.props3 import stepped_iteration
